@@ -199,6 +199,8 @@ int xmp_smix_load_sample(xmp_context opaque, int num, const char *path)
 	struct module_data *m = &ctx->m;
 	struct xmp_instrument *xxi;
 	struct xmp_sample *xxs;
+	struct xmp_subinstrument *sub;
+	unsigned char *data = NULL;
 	HIO_HANDLE *h;
 	uint32 magic;
 	int chn, rate, bits, size;
@@ -218,19 +220,18 @@ int xmp_smix_load_sample(xmp_context opaque, int num, const char *path)
 		goto err;
 	}
 
-	/* Init instrument */
-
-	xxi->sub = (struct xmp_subinstrument *) calloc(1, sizeof(struct xmp_subinstrument));
-	if (xxi->sub == NULL) {
+	/* Build the instrument and the sample aside; the slot is only
+	 * touched when everything has been read.
+	 */
+	sub = (struct xmp_subinstrument *) calloc(1, sizeof(struct xmp_subinstrument));
+	if (sub == NULL) {
 		retval = -XMP_ERROR_SYSTEM;
 		goto err1;
 	}
 
-	xxi->vol = m->volbase;
-	xxi->nsm = 1;
-	xxi->sub[0].sid = num;
-	xxi->sub[0].vol = xxi->vol;
-	xxi->sub[0].pan = 0x80;
+	sub->sid = num;
+	sub->vol = m->volbase;
+	sub->pan = 0x80;
 
 	/* Load sample */
 
@@ -276,39 +277,44 @@ int xmp_smix_load_sample(xmp_context opaque, int num, const char *path)
 		goto err2;
 	}
 
-	libxmp_c2spd_to_note(rate, &xxi->sub[0].xpo, &xxi->sub[0].fin);
+	libxmp_c2spd_to_note(rate, &sub->xpo, &sub->fin);
 
-	xxs->len = 8 * size / bits;
-	xxs->lps = 0;
-	xxs->lpe = 0;
-	xxs->flg = bits == 16 ? XMP_SAMPLE_16BIT : 0;
-
-	xxs->data = (unsigned char *) malloc(size + 8);
-	if (xxs->data == NULL) {
+	data = (unsigned char *) malloc(size + 8);
+	if (data == NULL) {
 		retval = -XMP_ERROR_SYSTEM;
 		goto err2;
 	}
 
 	/* ugly hack to make the interpolator happy */
-	memset(xxs->data, 0, 4);
-	memset(xxs->data + 4 + size, 0, 4);
-	xxs->data += 4;
+	memset(data, 0, 4);
+	memset(data + 4 + size, 0, 4);
 
 	if (hio_seek(h, 44, SEEK_SET) < 0) {
 		retval = -XMP_ERROR_SYSTEM;
 		goto err2;
 	}
-	if (hio_read(xxs->data, 1, size, h) != size) {
+	if (hio_read(data + 4, 1, size, h) != size) {
 		retval = -XMP_ERROR_SYSTEM;
 		goto err2;
 	}
 	hio_close(h);
 
+	/* Commit */
+	xxi->vol = m->volbase;
+	xxi->nsm = 1;
+	xxi->sub = sub;
+
+	xxs->len = 8 * size / bits;
+	xxs->lps = 0;
+	xxs->lpe = 0;
+	xxs->flg = bits == 16 ? XMP_SAMPLE_16BIT : 0;
+	xxs->data = data + 4;
+
 	return 0;
 
     err2:
-	free(xxi->sub);
-	xxi->sub = NULL;
+	free(data);
+	free(sub);
     err1:
 	hio_close(h);
     err:
